@@ -1654,6 +1654,10 @@ silent("c19-r14-s-contraction-align-fallback-neq", "C19", "funsor/cnf.py",
      "        if not names == tuple(result.inputs):\n",
      "        if tuple(result.inputs) != names:\n")
 
+silent("c14-r14-s-delta-subs-loop-invariant-carried", "C14", "funsor/delta.py",
+     "                    log_densities.append(is_equal.log() + log_density)\n",
+     "                    log_densities.append(is_equal.log() + log_density)\n                    seen_dtype = get_default_dtype()\n", )
+
 # ===== derived variants: must stay at the END of this file (they enumerate every rename() variant above) =====
 # `if c: A else: B` -> `if not c: B else: A` in the anchor functions (behaviour-preserving)
 def invert(prop, file, qual):
